@@ -244,6 +244,9 @@ func propC10(w *World, r *Report) {
 	checkEncodingPos(w, r)
 	RunReadOnly(w, r, e, "readonly", []string{"(*sfnt.Font).Subset", "(*cff.Outlines).Subset", "(*glyf.Glyph).FixComponents"}, 0)
 	checkCovOrder(w, r, fns)
+	checkWorklist(w, r, e, fns)
+	RunControl(r, "worklist", "ctlClosure).close", func(cw *World, cr *Report, cf []*ssa.Function) { checkWorklist(cw, cr, nil, cf) })
+	r.Floor("worklist", 15)
 	r.Floor("gidsort", 12)
 }
 
@@ -604,4 +607,120 @@ func checkCovOrder(w *World, r *Report, fns []*ssa.Function) {
 			return true
 		})
 	}
+}
+
+// checkWorklist: closure computations.  A `for ... range xs` loop takes the
+// length of xs once, before the first iteration; if its body (or a function
+// it calls) appends to the very slice variable it ranges over, the appended
+// elements are not visited.  Where the loop is meant to compute a closure
+// (components of components, glyphs reachable through substitutions) it must
+// be a work list: an index loop that re-reads len(xs), or a todo set.
+func checkWorklist(w *World, r *Report, e *Effects, fns []*ssa.Function) {
+	r.Rule("worklist: no range loop over a slice field appends to that same field in its body (directly or through a callee): the range length is fixed before the loop, so elements added on the way are not processed — a closure over glyph references must be an index loop that re-reads the length or a todo set")
+	n := 0
+	for _, fn := range fns {
+		for _, l := range naturalLoops(fn) {
+			// range-over-slice shape: the head compares an index phi with a length taken outside the loop
+			if len(l.head.Instrs) == 0 {
+				continue
+			}
+			ifi, ok := l.head.Instrs[len(l.head.Instrs)-1].(*ssa.If)
+			if !ok {
+				continue
+			}
+			cmp, ok := ifi.Cond.(*ssa.BinOp)
+			if !ok || cmp.Op != token.LSS {
+				continue
+			}
+			lenCall, ok := cmp.Y.(*ssa.Call)
+			if !ok || l.body[lenCall.Block()] {
+				continue
+			}
+			bi, ok := lenCall.Call.Value.(*ssa.Builtin)
+			if !ok || bi.Name() != "len" {
+				continue
+			}
+			// the slice must be a load of a field
+			ld, ok := lenCall.Call.Args[0].(*ssa.UnOp)
+			if !ok {
+				continue
+			}
+			fa, ok := ld.X.(*ssa.FieldAddr)
+			if !ok {
+				continue
+			}
+			if _, isSlice := ld.Type().Underlying().(*types.Slice); !isSlice {
+				continue
+			}
+			n++
+			field := fieldKey(fa)
+			key := r.MkKey("worklist", fnName(fn), "range over "+shortName(field))
+			// stores to the same field inside the loop, directly or via callees
+			bad := ""
+			for b := range l.body {
+				for _, in := range b.Instrs {
+					switch x := in.(type) {
+					case *ssa.Store:
+						// the same field of the same object
+						if fa2, ok := x.Addr.(*ssa.FieldAddr); ok && fieldKey(fa2) == field && fa2.X == fa.X {
+							bad = "the loop body assigns " + shortName(field) + " at " + w.Pos(x.Pos())
+						}
+					case *ssa.Call:
+						for _, callee := range w.Callees(x) {
+							args := x.Call.Args
+							if x.Call.IsInvoke() {
+								args = append([]ssa.Value{x.Call.Value}, args...)
+							}
+							for i, a := range args {
+								if a == fa.X && i < len(callee.Params) && storesFieldOf(callee, callee.Params[i], field, map[*ssa.Function]bool{}, 0, w) {
+									bad = "the loop body calls " + fnName(callee) + " at " + w.Pos(x.Pos()) + ", which assigns " + shortName(field) + " of the same object"
+								}
+							}
+						}
+					}
+				}
+			}
+			if bad == "" {
+				r.OK("worklist", key, w.Pos(ifi.Cond.Pos()), "the slice is not extended inside the loop")
+			} else {
+				r.Fail("worklist", key, w.Pos(ifi.Cond.Pos()), bad+": the range length was fixed before the loop, so the elements added are never visited (glyphs referenced only by glyphs that are themselves added during the loop are missing from the subset)", nil)
+			}
+		}
+	}
+	r.Scope["range_loops_over_slice_fields"] = n
+}
+
+// storesFieldOf: fn assigns the field of the object its parameter par points to
+// (directly or by handing par on to a callee).
+func storesFieldOf(fn *ssa.Function, par *ssa.Parameter, field string, seen map[*ssa.Function]bool, depth int, w *World) bool {
+	if fn == nil || seen[fn] || depth > 4 || fn.Blocks == nil {
+		return false
+	}
+	seen[fn] = true
+	for _, b := range fn.Blocks {
+		for _, in := range b.Instrs {
+			switch x := in.(type) {
+			case *ssa.Store:
+				if fa, ok := x.Addr.(*ssa.FieldAddr); ok && fieldKey(fa) == field && fa.X == ssa.Value(par) {
+					return true
+				}
+			case *ssa.Call:
+				for _, c := range w.Callees(x) {
+					if !isLibPkg(fnPkgPath(c)) {
+						continue
+					}
+					args := x.Call.Args
+					if x.Call.IsInvoke() {
+						args = append([]ssa.Value{x.Call.Value}, args...)
+					}
+					for i, a := range args {
+						if a == ssa.Value(par) && i < len(c.Params) && storesFieldOf(c, c.Params[i], field, seen, depth+1, w) {
+							return true
+						}
+					}
+				}
+			}
+		}
+	}
+	return false
 }
